@@ -220,7 +220,10 @@ func MountedMiddleware2(ab *Authboss, mountPathed bool, reqs MWRequirements, fai
 					log.Infof("redirecting unauthorized user to login from: %s", r.URL.Path)
 					vals := make(url.Values)
 
-					redirURL := r.URL.Path
+					// Use the escaped form: in the decoded path an encoded
+					// '?', '#' or '%' is indistinguishable from the real
+					// delimiters and login would return somewhere else.
+					redirURL := r.URL.EscapedPath()
 					if mountPathed && len(ab.Config.Paths.Mount) != 0 {
 						redirURL = path.Join(ab.Config.Paths.Mount, redirURL)
 					}
